@@ -61,8 +61,9 @@ def run(db, rep, feat, tier):
         "Constant method reaches and the parameter each of its operands derives from, signed view only for signed "
         "operators, value-derived shift amounts guarded by a width comparison, evaluator rejection atoms a subset of "
         "the constructor's, result width / comparison polarity, constructors building their own variant in "
-        "parameter order, and panic sites reachable from eval and the public Constant methods. Numeric results "
-        "(masks, wrap-around formulas, rounding) are NOT decided."
+        "parameter order, panic sites reachable from eval and the public Constant methods, and the derived builders "
+        "rotl / sra bit for bit (bit provenance of the term they build for sampled widths and all constant amounts). "
+        "Numeric results of the big-integer primitives themselves (wrap-around, rounding) are NOT decided."
     )
     variants = variants_of(db, EXPR)
     rep.anchor(variants is not None and len(variants) >= 23, "enum il::expression::Expression with >= 23 variants")
@@ -76,6 +77,47 @@ def run(db, rep, feat, tier):
     r9(db, rep)
     r5(db, rep)
     r8(db, rep)
+    r10(db, rep, tier)
+
+
+def r10(db, rep, tier):
+    """Derived builders, bit for bit: the IL term Expression::rotl / Expression::sra build for a given width and a constant
+    amount is evaluated in the bit-provenance domain (which operand bit reaches which result bit)."""
+    import bitprov
+    import ilshape
+    r = rep.rule("R10", "K9", "derived builders agree with their meaning for every sampled width (powers of two and others, 1..128) and "
+                 "every constant amount 0..width: rotl(x, s)[i] = x[(i - s) mod w]; sra(x, s)[i] = x[i + s] below the top and the sign "
+                 "bit x[w-1] above")
+    sh = ilshape.Shape(db)
+    widths = [1, 2, 3, 5, 7, 8, 12, 16, 24, 31, 32, 33, 48, 63, 64] + ([65, 80, 96, 127, 128] if tier == "thorough" else [65, 128])
+    for name in ("rotl", "sra"):
+        f = "il::expression::Expression::" + name
+        rep.anchor(f in db.hir, f)
+        bad, undecided, n = None, 0, 0
+        for w in widths:
+            amounts = range(0, w + 1) if w <= 33 or tier == "thorough" else sorted({0, 1, 2, w // 2, w - 8, w - 1, w} & set(range(0, w + 1)))
+            for k in amounts:
+                res = sh.run(f, args={0: ilshape.opaque(w, "x"), 1: ilshape.E(w, ("const", k % (1 << w)), "G")})
+                got = bitprov.bits(res.ret) if ilshape.is_il(res.ret) else None
+                kk = k % (1 << w)
+                if name == "rotl":
+                    want = [("x", (i - kk) % w) for i in range(w)]
+                    if kk > w:
+                        continue
+                else:
+                    want = [("x", i + kk) if i + kk < w else ("x", w - 1) for i in range(w)]
+                n += 1
+                if got is None or any(b is None for b in got):
+                    undecided += 1
+                elif got != want and bad is None:
+                    bad = (w, kk, got, want)
+        if bad:
+            r.bad("%s|bits" % name, db.where(db.hir[f]), "%s(x:%d, %d) yields %s; the meaning is %s" % (
+                name, bad[0], bad[1], bitprov.show(bad[2]), bitprov.show(bad[3])))
+        elif undecided * 2 > n:
+            r.open("%s|bits" % name, db.where(db.hir[f]), "%d of %d (width, amount) pairs could not be evaluated" % (undecided, n))
+        else:
+            r.ok("%s|bits" % name, db.where(db.hir[f]), detail={"pairs": n, "undecided_pairs": undecided})
 
 
 # ------------------------------------------------------------------------------------ R1
